@@ -23,7 +23,7 @@ LEVEL = "exploration"
 TECHNIQUE = "deterministic simulation across interpreter processes with simulator-chosen PYTHONHASHSEED and differing pre-histories (S-PROC) + archive save/load through the storage seam; cross-process log agreement + count model"
 RUNS = {"quick": 2, "thorough": 2}  # pre-histories per hash-seed slot
 HASHSEED_SLOTS = {"quick": 3, "thorough": 6}
-N_SERVERS = {"quick": 6, "thorough": 12}
+N_SERVERS = {"quick": 8, "thorough": 12}
 SAMPLE = {"quick": 1500, "thorough": 6000}
 JOB_TIMEOUT = 3000.0
 EXPECTED_TOTAL = 9 * 216 * 1008 * 3  # as the property states: 5,878,656
@@ -302,6 +302,63 @@ def st_process(spec):
     return {"violations": viols, "events": events, "stats": stats}
 
 
+def st_module_history(spec):
+    """History on the module-level (cached) enumeration: `get_all_tokenizers()` is what users call, it is memoised, and the
+    module's own sampling helpers work on that memoised list.  Whatever sequence of helper calls a process has made, the
+    enumeration it then sees must still be the whole valid space: same size (= the product predicted from the parameter
+    space), same members at the probed positions, both legacy-default tokenizers present."""
+    import warnings
+
+    warnings.filterwarnings("ignore")
+    from maze_dataset.tokenization import AdjListTokenizers, CoordTokenizers, MazeTokenizerModular, PathTokenizers, TargetTokenizers
+    from maze_dataset.tokenization import all_tokenizers as at
+    from maze_dataset.utils import all_instances
+
+    V = at.MAZE_TOKENIZER_MODULAR_DEFAULT_VALIDATION_FUNCS
+    events: list = []
+    viols: list = []
+    n_c = sum(1 for _ in all_instances(CoordTokenizers._CoordTokenizer, V))
+    n_a = sum(1 for _ in all_instances(AdjListTokenizers._AdjListTokenizer, V))
+    n_t = sum(1 for _ in all_instances(TargetTokenizers._TargetTokenizer, V))
+    n_p = sum(1 for _ in all_instances(PathTokenizers._PathTokenizer, V))
+    predicted = n_c * n_a * n_p * (n_t + 1)
+    rng = random.Random(spec["seed"])
+
+    def snapshot(label):
+        lst = at.get_all_tokenizers()
+        n = len(lst)
+        pos = [(i * 7919) % n for i in range(400)] + [0, n - 1]
+        names = [lst[i].name for i in pos]
+        dflt = sum(1 for i in (0, n - 1) if lst[i] is not None)  # touch ends
+        has_default = MazeTokenizerModular() in at.EVERY_TEST_TOKENIZERS
+        events.append(["snapshot", label, n, core.digest(names)])
+        if n != predicted:
+            viols.append(["C15.count", f"after {label}: get_all_tokenizers() yields {n} tokenizers, the parameter space predicts {predicted}", None])
+        return n, names
+
+    n0, names0 = snapshot("first call")
+    ops = ["sample_tokenizers_for_test", "sample_all_tokenizers", "sample_tokenizers_for_test_none", "all_tokenizers_set"]
+    rng.shuffle(ops)
+    for op in ops[: spec.get("n_ops", 3)]:
+        try:
+            if op == "sample_tokenizers_for_test":
+                out = at.sample_tokenizers_for_test(rng.randint(1, 12))
+            elif op == "sample_all_tokenizers":
+                out = at.sample_all_tokenizers(rng.randint(1, 12))
+            elif op == "sample_tokenizers_for_test_none":
+                out = at.sample_tokenizers_for_test(None)
+            else:
+                out = at.all_tokenizers_set()
+            events.append(["op", op, len(out)])
+        except Exception as e:  # noqa: BLE001
+            viols.append(["C15.module-helper-raised", f"{op} raised {type(e).__name__}: {str(e)[:200]}", None])
+            break
+        n1, names1 = snapshot("after " + op)
+        if n1 == n0 and names1 != names0:
+            viols.append(["C15.enumeration-stable", f"after {op} the memoised enumeration has the same size but other members at the probed positions", None])
+    return {"violations": viols, "events": events, "stats": {"module_history_ops": len(ops[: spec.get('n_ops', 3)]), "module_enumeration_size": n0}}
+
+
 FRESH_CODE = r"""
 import sys, json, warnings
 warnings.filterwarnings('ignore')
@@ -325,6 +382,15 @@ def fresh_process(spec, hashseed, repo):
 def run(spec: dict, ctx) -> dict:
     log = core.EventLog()
     sp = dict(spec, scratch=ctx.scratch)
+    if spec.get("mode") == "module-history":
+        res = core.stage(st_module_history, sp, timeout=2800.0)
+        log.add("events", res["events"])
+        stats = dict(res["stats"])
+        ed = core.digest(res["events"])
+        if res["violations"]:
+            o, m, k = res["violations"][0]
+            return core.violation(o, m, log, key=k, stats=stats, spec=spec, events_digest=ed, group=spec.get("group"))
+        return core.ok(log, stats=stats, nontrivial=f"module:{spec.get('slot')}", events_digest=ed, group=spec.get("group"))
     res = core.stage(st_process, sp, timeout=2800.0)
     log.add("events", res["events"])
     stats = dict(res["stats"])
@@ -380,6 +446,10 @@ def gen_specs(rng: random.Random, tier: str, n: int) -> list[dict]:
     for slot in range(K):
         for j in range(n):
             specs.append({"seed": seed, "sample": SAMPLE[tier], "slot": slot, "pre": pres[(slot * n + j) % len(pres)], "group": 0, "full_digests": tier == "thorough"})
+    # histories on the memoised module-level enumeration (2.6 GB and ~2.5 min each: one process in the quick tier, one per
+    # hash-seed slot - compared with each other - in the thorough tier)
+    for slot in range(1 if tier == "quick" else K):
+        specs.append({"mode": "module-history", "seed": seed, "slot": slot, "group": 1, "n_ops": 3, "pre": "module", "full_digests": False, "sample": 0})
     # one run whose twin lives in a truly fresh interpreter (no fork server, no warm-up)
     specs.append({"seed": seed, "sample": SAMPLE[tier] // 3, "slot": 0, "pre": "none", "group": None, "full_digests": False, "fresh": {"hashseed": rng.randrange(1, 2**32 - 1), "pre": "dataset-work"}})
     return specs
